@@ -326,7 +326,9 @@ def r142(ctx, rep, f, ev, cg, reach):
         sent = []
         if fw in f.fns:
             ev.call_hooks = [(lambda fn, res: fn.endswith("Receiver::<T>::recv"),
-                              lambda n, a, v=v: Agg("core::result::Result", "Ok", {"0": Agg(IST, v, {"0": Sym("P")})}))]
+                              lambda n, a, v=v: Agg("core::result::Result", "Ok", {"0": Agg(IST, v, {"0": Sym("P")})})),
+                             # the description of a trigger type is the view library's table (decided by R14.2|run-trigger-string)
+                             (lambda fn, res: (res or fn).endswith("::trigger_type_string_from_int"), lambda n, a: Sym("TRIGGER_STRING(%s)" % vkey(a[0])))]
             try:
                 recs = _recs(ev, fw, [Sym("rx"), Sym("tx")], follow=lambda c: c.startswith("fastpasta::") and c.count("::") == 1)
             except Unsupported as e:
@@ -346,14 +348,27 @@ def r142(ctx, rep, f, ev, cg, reach):
                 ok = val.startswith("('match',('match',sym(P),") and "StatType::SystemId" in val.replace("fastpasta::stats::", "") and "StatType::Fatal" in val.replace("fastpasta::stats::", "") \
                     and val.count("StatType::") - val.count("StatType::SystemId") - val.count("StatType::Fatal") == 0
         elif v == "RunTriggerType":
-            ok = len(sent) == 1 and sent[0][0].startswith("StatType::RunTriggerType(0=(sym(P),sym(call:alloc::string::String::into_boxed_str(") and not sent[0][1]
-            tbs = [ev.tb(fw)] + [ev.tb(q) for q in f.fns if q.startswith("fastpasta::") and q.count("::") == 1 and f.fns[q].get("thir")]
-            tcalls = [n for tb_ in tbs if tb_ is not None for _, n in tb_.calls() if (n.get("fn") or "").endswith("trigger_type_string_from_int")]
-            ok = ok and len(tcalls) >= 1 and "sym(P)" in sent[0][0][len("StatType::RunTriggerType(0=(sym(P),"):]
+            # (raw value, its description from the trigger-type table), whatever string type conversions are applied
+            import re as _re
+            ok = len(sent) == 1 and not sent[0][1] and _re.fullmatch(r"StatType::RunTriggerType\(0=\(sym\(P\),(sym\(call:[^()]*\()*sym\(TRIGGER_STRING\(sym\(P\)\)\)\)*\)\)", sent[0][0]) is not None
         else:
             ok = sent == [("StatType::%s(0=sym(P))" % v, ())]
         rep.check(ok, "R14.2", "R14.2|forward|%s" % v, "InputStatType::%s is forwarded as StatType::%s with its payload" % (v, v), W,
                   "InputStatType::%s(P) is forwarded as %s" % (v, [(x[0][:120], [g[:60] for g in x[1]]) for x in sent]))
+    # the description attached to the run trigger type is the documented priority cascade SOC > SOT > HB > PhT > other
+    from .c19 import _cascade
+    ttp = "fastpasta::analyze::view::lib::trigger_type_string_from_int"
+    if ttp in f.fns:
+        ev.call_hooks = []
+        try:
+            k = vkey(ev.call_fn(ttp, [Bits.inp("T", 0, 32)]))
+        except Unsupported as e:
+            k = "unevaluable %s" % e
+        got = _cascade(k)
+        rep.check(got == [("any(T[9])", "SOC"), ("any(T[7])", "SOT"), ("any(T[1])", "HB"), ("any(T[4])", "PhT"), (None, "Other")], "R14.2", "R14.2|run-trigger-string",
+                  "run trigger description: SOC (bit 9) > SOT (bit 7) > HB (bit 1) > PhT (bit 4) > Other", ttp, "trigger_type_string_from_int evaluates to %s" % (got if got is not None else k[:300]))
+    else:
+        rep.missing("R14.2", ttp)
     # StatsCollector::collect
     table = {"RDHSeen": "add_rdhs_seen", "HBFsSeen": "add_hbfs_seen", "PayloadSize": "add_payload_size", "LinksObserved": "record_link", "RdhVersion": "record_rdh_version",
              "FeeId": "record_fee_observed", "RunTriggerType": "record_run_trigger_type", "TriggerType": "record_trigger_type", "SystemId": "record_system_id",
